@@ -59,6 +59,43 @@ func vpKeyOfIRI(i IRI) (byte, bool) {
 	return 0, false
 }
 
+// addressees whose id has no path at all: https://a.ex, http://a.ex/ and https://A.ex/ name the same one
+func vpH_C10_host_only() {
+	c1, c2 := vpByte(), vpByte()
+	vpAssume(vpABCTab[c1] && vpABCTab[c2])
+	form := func(c byte, v int) IRI {
+		h := string([]byte{c}) + ".ex"
+		switch v {
+		case 0:
+			return IRI("https://" + h)
+		case 1:
+			return IRI("http://" + h + "/")
+		}
+		return IRI("https://" + h + "/")
+	}
+	a, b := form(c1, vpChoice(3)), form(c2, vpChoice(3))
+	same := c1|0x20 == c2|0x20
+	var to, cc *ItemCollection
+	var recipients func() ItemCollection
+	if vpBool() {
+		x := &Object{ID: "https://self.ex/o", Type: NoteType, To: ItemCollection{a}, CC: ItemCollection{b}}
+		to, cc, recipients = &x.To, &x.CC, x.Recipients
+	} else {
+		x := &Activity{ID: "https://self.ex/o", Type: CreateType, To: ItemCollection{a}, CC: ItemCollection{b}}
+		to, cc, recipients = &x.To, &x.CC, x.Recipients
+	}
+	r := recipients()
+	vpAssert("host-only/first-mention-kept", len(*to) == 1 && (*to)[0] == Item(a))
+	if same {
+		vpAssert("host-only/named-once", len(r) == 1 && r[0] == Item(a))
+		vpAssert("host-only/later-mention-removed", len(*cc) == 0)
+	} else {
+		vpAssert("host-only/both-named", len(r) == 2 && r[0] == Item(a) && r[1] == Item(b))
+		vpAssert("host-only/both-kept", len(*cc) == 1 && (*cc)[0] == Item(b))
+	}
+	vpReach("end")
+}
+
 type vpRecipTarget struct {
 	to, cc, bto, bcc, aud *ItemCollection
 	actor                 *Item
